@@ -118,10 +118,12 @@ var c14KnownWriteSites = map[string]string{
 
 func c14RunTranslator(out string, meta *Meta) (*c14Facts, string, error) {
 	root, bdir := c14Root(), c14BuildDir()
+	home := newScratch() // the go tool writes its telemetry counters under $HOME
+	defer home.Close()
 	tdir := filepath.Join(root, "translator")
 	bin := filepath.Join(bdir, "translator")
 	env := []string{"GOFLAGS=-mod=mod", "GOPROXY=off", "GOSUMDB=off", "GOTOOLCHAIN=local", "CGO_ENABLED=0",
-		"GOCACHE=" + c14GoEnv("GOCACHE"), "GOMODCACHE=" + c14GoEnv("GOMODCACHE"), "GOPATH=" + c14GoEnv("GOPATH")}
+		"GOCACHE=" + c14GoEnv("GOCACHE"), "GOMODCACHE=" + c14GoEnv("GOMODCACHE"), "GOPATH=" + c14GoEnv("GOPATH"), "HOME=" + home.Dir}
 	r := runCmd(tdir, []string{"go", "build", "-o", bin, "."}, "", 300*time.Second, env...)
 	if r.Code != 0 || r.TimedOut {
 		return nil, "", fmt.Errorf("translator does not build: %s %s", r.Stdout, r.Stderr)
@@ -303,6 +305,7 @@ func c14Discover(r *rand.Rand, perFn int, meta *Meta) []c14Vector {
 		pick := func(l []c14Vector, n int) {
 			// prefer distinct class signatures, then shorter vectors last (more operands = more conversions)
 			seen := map[string]bool{}
+			used := map[int]bool{}
 			idx := r.Perm(len(l))
 			for _, i := range idx {
 				if n == 0 {
@@ -310,6 +313,16 @@ func c14Discover(r *rand.Rand, perFn int, meta *Meta) []c14Vector {
 				}
 				if s := l[i].sig(); !seen[s] {
 					seen[s] = true
+					used[i] = true
+					out = append(out, l[i])
+					n--
+				}
+			}
+			for _, i := range idx { // more than there are signatures: other operands of the same classes
+				if n == 0 {
+					return
+				}
+				if !used[i] {
 					out = append(out, l[i])
 					n--
 				}
@@ -466,7 +479,7 @@ func (g *c14Gen) operatorPrograms(n int) {
 		e := fmt.Sprintf(t, a.SQL, b.SQL)
 		ev := fmt.Sprintf(t, "@a", "@b")
 		ec := fmt.Sprintf(t, "a1", "a2")
-		switch i % 3 {
+		switch (i / len(templates)) % 3 { // every template meets every form
 		case 0:
 			g.add("operator-literal", "", a.Class+","+b.Class, "SELECT "+e+", "+e+";", 1)
 		case 1:
@@ -539,7 +552,7 @@ func (g *c14Gen) queryPrograms(tier string) {
 		q("statement", m, cpu())
 	}
 	if tier == "thorough" {
-		for i := 0; i < 300; i++ {
+		for i := 0; i < 4000; i++ {
 			a := aggs[g.r.Intn(len(aggs))]
 			an := ans[g.r.Intn(len(ans))]
 			o := orders[g.r.Intn(len(orders))]
@@ -581,7 +594,7 @@ func (g *c14Gen) writeTables(dir string) {
 
 // ---- the run ---------------------------------------------------------------------------------------
 func c14Tags(off, on *c14Result) []string {
-	var tags []string
+	tags := []string{}
 	for _, r := range []*c14Result{off, on} {
 		if r == nil || r.TreeSame {
 			continue
@@ -611,9 +624,38 @@ func runC14(seed int64, tier string, out string) {
 		fmt.Fprintln(os.Stderr, "C14:", err)
 		os.Exit(3)
 	}
+	// tags only (the decision is taken in Coq): a site whose ONLY defect is a constructor that is not
+	// fresh is grouped under that constructor, so that one broken constructor is one violation line
+	fresh := map[string]bool{}
+	for round := 0; round <= len(facts.Ctors); round++ {
+		for _, c := range facts.Ctors {
+			ok := len(c.Rets) > 0
+			for _, r := range c.Rets {
+				if !(r.Kind == "poolget" || r.Kind == "singleton" || r.Kind == "ctor" && fresh[r.Ctor]) {
+					ok = false
+				}
+			}
+			fresh[c.Name] = ok
+		}
+	}
+	siteTag := func(s c14Site) string {
+		if s.Shape != "other" && len(s.Escapes) == 0 && len(s.UseAfter) == 0 {
+			for _, d := range s.Defs {
+				if d.Kind == "other" {
+					return "discard-site:" + s.Identity
+				}
+			}
+			for _, d := range s.Defs {
+				if d.Kind == "ctor" && !fresh[d.Ctor] {
+					return "ctor:" + d.Ctor
+				}
+			}
+		}
+		return "discard-site:" + s.Identity
+	}
 	for _, s := range facts.Sites {
 		c := map[string]interface{}{"what": "value.Discard call site", "site": s.Identity, "at": fmt.Sprintf("%s:%d", s.File, s.Line),
-			"shape": s.Shape, "definitions": s.Defs, "escapes": s.Escapes, "uses_after_the_call": s.UseAfter, "tags": []string{"discard-site:" + s.Identity}}
+			"shape": s.Shape, "definitions": s.Defs, "escapes": s.Escapes, "uses_after_the_call": s.UseAfter, "tags": []string{siteTag(s)}}
 		if s.Allow != "" {
 			c["allowlisted_because"] = s.Allow
 			meta.Notes = append(meta.Notes, "allowlisted Discard site (trusted, translator/allowlist_c14.json): "+s.Identity+" -- "+s.Allow)
@@ -648,7 +690,7 @@ func runC14(seed int64, tier string, out string) {
 	// 2. programs -----------------------------------------------------------------------------------
 	perFn, nOps := 2, 240
 	if tier == "thorough" {
-		perFn, nOps = 6, 1500
+		perFn, nOps = 24, 9000
 	}
 	g := &c14Gen{r: r, meta: meta}
 	vs := c14Discover(r, perFn, meta)
@@ -687,6 +729,7 @@ func runC14(seed int64, tier string, out string) {
 	type childRes struct {
 		out c14ChildOut
 		err string
+		at  string // id of the program that was running when the process died
 	}
 	results := map[string]*childRes{}
 	done := make(chan struct{}, 2)
@@ -708,6 +751,9 @@ func runC14(seed int64, tier string, out string) {
 			raw, e := os.ReadFile(resFile)
 			if rr.Code != 0 || rr.TimedOut || e != nil {
 				cr.err = fmt.Sprintf("exit=%d timeout=%v %s %s", rr.Code, rr.TimedOut, c14Trunc(rr.Stderr, 1500), c14Trunc(rr.Stdout, 300))
+				if cur, e2 := os.ReadFile(resFile + ".current"); e2 == nil {
+					cr.at = string(cur)
+				}
 				return
 			}
 			if e := json.Unmarshal(raw, &cr.out); e != nil {
@@ -717,11 +763,19 @@ func runC14(seed int64, tier string, out string) {
 	}
 	<-done
 	<-done
+	crashed := false
 	for _, mode := range []string{"off", "on"} {
 		if results[mode].err != "" {
+			crashed = true
+			var prog interface{}
+			for _, p := range g.progs {
+				if fmt.Sprint(p.ID) == results[mode].at {
+					prog = p
+				}
+			}
 			meta.Direct = append(meta.Direct, DirectViolation{Key: "child-crash-" + mode,
-				What: "the process that executes the corpus with the pool " + map[string]string{"off": "active", "on": "poisoned"}[mode] + " did not finish: " + results[mode].err,
-				Case: map[string]interface{}{"mode": mode}})
+				What: "the process that executes the corpus with the pool " + map[string]string{"off": "active", "on": "poisoned"}[mode] + " died (a panic on a worker goroutine, memory exhaustion or a timeout) while running the program in `case`: " + results[mode].err,
+				Case: map[string]interface{}{"mode": mode, "program": prog}})
 		}
 	}
 
@@ -751,7 +805,7 @@ func runC14(seed int64, tier string, out string) {
 	}
 	offR, onR := byID(results["off"]), byID(results["on"])
 	distinct := map[string]bool{}
-	dynFailed := false
+	dynFailed := crashed
 	b2c := func(b bool) string { return coqBool(b) }
 	samples := 0
 	for _, p := range g.progs {
